@@ -68,6 +68,17 @@ LAYOUTS = {
     "nested_template_swapped": ({"inner.xbb": ["name Inner", "version 1.0", "", "Dgate(2*{x}+{y}, {y}/4) | %(a)s"],
                                  "outer.xbb": ["name Outer", "version 1.0", 'include "inner.xbb"', "", "Inner(x={y}, y={x}) | %(a)s", "Inner(y={y}*2, x={x}) | %(a)s"],
                                  "main.xbb": ["name main", "version 1.0", 'include "outer.xbb"', "", "Outer(x=%(f)s, y=-%(f)s) | %(m)s"]}, "main.xbb"),
+    # one library reached through several include chains of the same parse
+    "shared_lib_first": ({"lib.xbb": inc2("lib"), "chip.xbb": ["name chip", "version 1.0", 'include "lib.xbb"', "", "Cg(%(f)s) | %(a)s", "lib | [%(b)s, %(a)s]"],
+                          "main.xbb": ["name main", "version 1.0", 'include "lib.xbb"', 'include "chip.xbb"', "", "lib | [%(m)s, %(m)s]", "chip | [%(m)s, %(m)s]"]}, "main.xbb"),
+    "shared_lib_last": ({"lib.xbb": inc2("lib"), "chip.xbb": ["name chip", "version 1.0", 'include "lib.xbb"', "", "lib | [%(a)s, %(b)s]", "Cg(%(f)s) | %(b)s"],
+                         "main.xbb": ["name main", "version 1.0", 'include "chip.xbb"', 'include "lib.xbb"', "", "chip | [%(m)s, %(m)s]", "lib | [%(m)s, %(m)s]"]}, "main.xbb"),
+    "diamond": ({"sub/lib.xbb": inc2("lib"), "sub/chipa.xbb": ["name chipa", "version 1.0", 'include "lib.xbb"', "", "lib | [%(a)s, %(b)s]", "Ag | %(a)s"],
+                 "sub/chipb.xbb": ["name chipb", "version 1.0", 'include "lib.xbb"', "", "Bg(%(f)s) | %(b)s", "lib | [%(b)s, %(a)s]"],
+                 "main.xbb": ["name main", "version 1.0", 'include "sub/chipa.xbb"', 'include "sub/chipb.xbb"', "", "chipa | [%(m)s, %(m)s]", "chipb | [%(m)s, %(m)s]"]}, "main.xbb"),
+    "diamond_template": ({"tinc.xbb": tinc(), "ua.xbb": ["name ua", "version 1.0", 'include "tinc.xbb"', "", "tinc(alpha=%(f)s, beta=%(f)s) | [%(a)s, %(b)s]"],
+                          "ub.xbb": ["name ub", "version 1.0", 'include "tinc.xbb"', "", "tinc(beta=%(f)s, alpha=%(f)s) | [%(b)s, %(a)s]"],
+                          "main.xbb": ["name main", "version 1.0", 'include "ua.xbb"', 'include "ub.xbb"', 'include "tinc.xbb"', "", "ub | [%(m)s, %(m)s]", "ua | [%(m)s, %(m)s]"]}, "main.xbb"),
     "target_and_include": ({"inc.xbb": inc2(), "main.xbb": ["name main", "version 1.0", "target X8 (shots=%(i)s)", 'include "inc.xbb"', "", "inc | [%(m)s, %(m)s]"]}, "main.xbb"),
     # mismatched calls must be refused
     "bad_arity": ({"inc.xbb": inc2(), "main.xbb": ["name main", "version 1.0", 'include "inc.xbb"', "", "inc | [%(m)s, %(m)s, %(m)s]"]}, "main.xbb"),
